@@ -52,6 +52,37 @@ def cfg_with_known(d, cfg, ids):
     open(p, "w").write(s)
 
 
+def _run_marker_proof(ctx, d):
+    """Unbounded part of C21 (spec/Node/MarkerProof.tla): TLAPS proves, for any number of topology entries, chains,
+    interleavings, stops and restarts, that with the consensus record written under the topology lock a running
+    node outside Node.TopoWrite has marker >= last consensus entry, a stopped node is covered or repairable from
+    the last entry, and right after SetupNode's repair the marker covers every consensus entry. MC_MarkerProof is
+    the same module explored by TLC (n <= 5): the locked design passes, the design without the lock violates the
+    invariant and the restart property, two witnesses show the repair path is reachable."""
+    import re, shutil, subprocess
+    from vlib import VERIF
+    shutil.copy(os.path.join(VERIF, "spec", "Locks", "TLAPS.tla"), d)      # TLC has to parse EXTENDS TLAPS
+    if shutil.which("tlapm"):
+        pr = subprocess.run(["timeout", "300", "tlapm", "--threads", "8", "MarkerProof.tla"], cwd=d,
+                            stdout=subprocess.PIPE, stderr=subprocess.STDOUT, text=True)
+        m = re.search(r"All (\d+) obligations proved", pr.stdout)
+        ctx.checker_cmds.append("tlapm --threads 8 MarkerProof.tla")
+        if m:
+            ctx.cov["tlaps_obligations_proved"] = int(m.group(1))
+            ctx.log("TLAPS: MarkerProof.tla, %s obligations proved (unbounded topology: Spec => []Inv, "
+                    "[](up /\\ lock = 0 => marker >= lastCons), [][Restart => (marker >= lastCons)']_vars)" % m.group(1))
+        else:
+            raise Infra("tlapm did not prove MarkerProof.tla:\n" + pr.stdout[-1500:])
+    else:
+        ctx.notes.append("tlapm not found: the unbounded proof of the marker design "
+                         "(spec/Node/MarkerProof.tla) was not re-proved")
+    ctx.tlc_mc(d, "MC_MarkerProof.tla", "MC_MarkerProof_Locked.cfg", workers=2, timeout=300, count=False)
+    for cfg, w in (("Unlocked_Inv", "Inv"), ("Unlocked_Restart", "RestartProp"),
+                   ("wit_NoStopInWindow", "NoStopInWindow"), ("wit_NoRepair", "NoRepair")):
+        ctx.tlc_mc(d, "MC_MarkerProof.tla", "MC_MarkerProof_%s.cfg" % cfg, workers=2, timeout=300, count=False,
+                   expect_violation=w)
+
+
 def run(ctx, args, race_only=False):
     quick = ctx.tier == "quick"
     rng = random.Random(ctx.seed)
@@ -80,6 +111,8 @@ def run(ctx, args, race_only=False):
         ctx.tlc_mc(d, "MC_Node.tla", cfg, workers=8, timeout=1200)
     if not race_only:
         ctx.exhaustive = True
+    if ctx.pid == "C21" and not race_only:
+        _run_marker_proof(ctx, d)
     # non-vacuity: without the known findings the design-level invariants are violated (the model
     # reaches the states the findings describe)
     if not race_only:
